@@ -142,7 +142,8 @@ public:
     int choose(int kind, int n);                 // seeded choice in [0,n); n<=1 -> 0 without consuming
     void yield_point(int evkind, int a = 0, int b = 0, int c = 0, int d = 0); // atomic step boundary
     void block_until(const std::function<bool()>& pred, int evkind, int a = 0, int b = 0);
-    void progress() { ++epoch_; }                // something observable changed
+    void progress();                             // something observable changed (called by the acting rank)
+    void poke(int world_rank);                   // something addressed to that rank happened
     void failed_poll();                          // the calling rank polled without success
     void work(double mean_us);                   // harness: virtual job duration (yields)
     void note(int a, int b = 0, int c = 0, int d = 0); // harness event into trace/hash
@@ -153,6 +154,7 @@ public:
     long steps() const { return st_.steps; }
     void add_event(int rank, int kind, int a, int b, int c, int d);
     std::string format_trace(size_t max_lines = 4000) const;
+    template <class F> void for_each_event(F f) const { for (size_t i = 0; i < events_.size(); i++) f(events_[i]); }
 
     // -- MPI core
     int ctx_size(int ctx) const;
